@@ -57,7 +57,7 @@ PROPS = {
     "C06": dict(
         modules=["Gopki.Props.C06"],
         theorems=["B64.dec_enc"],
-        ops=["raw"],
+        ops=["raw", "ext", "pki"],
         rule="raw: !null, !empty, every payload length 0..1100 (thorough 0..8200) plus 1535, 1536, 4096, 65536 with random bytes, hand-written malformed encodings, single-character mutations; non-trivial = accepted non-empty payload",
         modelled=["modelled, not verified: encoding/base64 StdEncoding.DecodeString (CR/LF skipping, lenient trailing bits)"],
         assumptions=[],
@@ -88,8 +88,10 @@ PROPS = {
         assumptions=[],
     ),
     "C07": dict(
-        modules=["Gopki.Props.C07"], theorems=[], ops=['pki'],
-        rule="pki: forests of 1-5 entities (random parent vector, nested directories, yaml/yml/json), every key algorithm except RSA>=2048 in quick, configured/omitted signature algorithms, "
+        modules=["Gopki.Props.C07"], theorems=[], ops=['ext', 'pki'],
+        rule="ext: all 128 key-usage subsets, basicConstraints ca x pathLen in {absent,0,1,2,127,128,255,256,65535} (thorough 0..255), key identifiers hashed and explicit (1/20/200 bytes), every kind with raw !null/!empty/!binary (4 and 900 bytes) and without content, "
+             "3000 (thorough 60000) random structured contents of the nine structured kinds, SAN/admission IP boundary and malformed addresses, all 256 subsets of optional admission members x four authority kinds, strings the encoders must reject; "
+             "the model must produce the same bytes and the RFC 5280 / CommonPKI decoders must read the configured content back; non-trivial = structured content emitted" + " | " + "pki: forests of 1-5 entities (random parent vector, nested directories, yaml/yml/json), every key algorithm except RSA>=2048 in quick, configured/omitted signature algorithms, "
              "subjects from the documented grammar incl. UTF-8 and custom OIDs, 0-6 extensions of all 11 kinds, serials, unique ids, validity forms, manipulations in 1 of 5 forests, 6 zone offsets, 5 flag sets; "
              "every generated certificate is compared byte for byte with the model and read by the strict decoder; non-trivial = at least one certificate generated",
         modelled=['modelled, not verified: encoding/asn1 marshalling (Gopki.Base.Asn1 / Gopki.Model.Generator), encoding/pem, encoding/json (Gopki.Model.Hash), io/fs walk order, MapFS, YAML/JSON-schema front end (identity)', 'signature mathematics and key generation: oracle inputs; verification done by the harness with crypto/ecdsa, crypto/rsa and the keybase brainpool curves'],
@@ -165,5 +167,13 @@ PROPS = {
         modelled=["modelled, not verified: encoding/asn1 Unmarshal (strict DER decoding in the model; its tolerance for unknown optional members on arbitrary bytes is not mirrored), encoding/pem (observed through block boundaries), "
                   "curve arithmetic (ScalarBaseMult, IsOnCurve) and rsa.Validate: checked by the harness with the standard library"],
         assumptions=["the public point of a key is d*G (checked by the harness for every key read)"],
+    ),
+    "C16": dict(
+        modules=["Gopki.Props.C16"], theorems=[], ops=["ext"],
+        rule="ext: all 128 key-usage subsets, basicConstraints ca x pathLen in {absent,0,1,2,127,128,255,256,65535} (thorough 0..255), key identifiers hashed and explicit (1/20/200 bytes), every kind with raw !null/!empty/!binary (4 and 900 bytes) and without content, "
+             "3000 (thorough 60000) random structured contents of the nine structured kinds, SAN/admission IP boundary and malformed addresses, all 256 subsets of optional admission members x four authority kinds, strings the encoders must reject; "
+             "the model must produce the same bytes and the RFC 5280 / CommonPKI decoders must read the configured content back; non-trivial = structured content emitted",
+        modelled=["modelled, not verified: encoding/asn1 marshalling incl. MarshalWithParams on struct tags (Gopki.Model.Extensions), reflection in partialMarshallStruct"],
+        assumptions=[],
     ),
 }
